@@ -123,18 +123,33 @@ pub fn install_quiet_panic_hook() {
     std::panic::set_hook(Box::new(|_| {}));
 }
 
+thread_local! {
+    static FUEL_OVERRIDE: Cell<u64> = const { Cell::new(0) };
+}
+
+/// Run `f` with a larger step budget per API step (whole-Unicode haystacks).
+pub fn with_fuel<T>(fuel: u64, f: impl FnOnce() -> T) -> T {
+    FUEL_OVERRIDE.with(|o| o.set(fuel));
+    let r = f();
+    FUEL_OVERRIDE.with(|o| o.set(0));
+    r
+}
+
 fn guarded<T>(f: impl FnOnce() -> T) -> Result<T, Out<()>> {
-    regexml::verif::set_fuel(FUEL);
+    let over = FUEL_OVERRIDE.with(|o| o.get());
+    regexml::verif::set_fuel(if over > 0 { over } else { FUEL });
     let r = catch_unwind(AssertUnwindSafe(f));
     let used = regexml::verif::used();
     STEPS.with(|s| s.set(s.get() + 1));
     match r {
         Ok(t) => {
-            MAX_FUEL_USED.with(|m| {
-                if used > m.get() {
-                    m.set(used)
-                }
-            });
+            if over == 0 {
+                MAX_FUEL_USED.with(|m| {
+                    if used > m.get() {
+                        m.set(used)
+                    }
+                });
+            }
             Ok(t)
         }
         Err(payload) => {
